@@ -107,7 +107,7 @@ func (c tlv) smpMessage() (smpMessage, bool) {
 
 func toSmpMessage1(t tlv) (msg smp1Message, ok bool) {
 	_, mpis, ok := ExtractMPIs(t.tlvValue)
-	if !ok || len(mpis) < 6 {
+	if !ok || len(mpis) != 6 {
 		return msg, false
 	}
 	msg.g2a = mpis[0]
@@ -134,7 +134,7 @@ func toSmpMessage1Q(t tlv) (msg smp1Message, ok bool) {
 
 func toSmpMessage2(t tlv) (msg smp2Message, ok bool) {
 	_, mpis, ok := ExtractMPIs(t.tlvValue)
-	if !ok || len(mpis) < 11 {
+	if !ok || len(mpis) != 11 {
 		return msg, false
 	}
 	msg.g2b = mpis[0]
@@ -153,7 +153,7 @@ func toSmpMessage2(t tlv) (msg smp2Message, ok bool) {
 
 func toSmpMessage3(t tlv) (msg smp3Message, ok bool) {
 	_, mpis, ok := ExtractMPIs(t.tlvValue)
-	if !ok || len(mpis) < 8 {
+	if !ok || len(mpis) != 8 {
 		return msg, false
 	}
 	msg.pa = mpis[0]
@@ -169,7 +169,7 @@ func toSmpMessage3(t tlv) (msg smp3Message, ok bool) {
 
 func toSmpMessage4(t tlv) (msg smp4Message, ok bool) {
 	_, mpis, ok := ExtractMPIs(t.tlvValue)
-	if !ok || len(mpis) < 3 {
+	if !ok || len(mpis) != 3 {
 		return msg, false
 	}
 	msg.rb = mpis[0]
